@@ -308,6 +308,34 @@ def leafless_not_required(ctx, rep, rule: str) -> None:
     rep.ob(rule, "flatten-folds-from-empty-dict", ok, fl.loc(), "flatten folds the children's entries with | starting from {} (a sub-dictionary without leaves contributes nothing)")
 
 
+def state_entries_are_distinct(ctx, rep, rule: str) -> None:
+    """In every OptimizerModule, two attributes never hold the same tensor object: `self.a = self.b = torch.zeros(1)` (or
+    `self.a = self.b`) puts one tensor under two state-dict keys, and loading then copies the saved `a` into it and overwrites
+    it with the saved `b` — the loaded module does not reproduce the saved values."""
+    repo = ctx.repo
+    base = repo.cls(OM)
+    n = 0
+    immut = lambda v: isinstance(v, ast.Constant) or (isinstance(v, ast.UnaryOp) and isinstance(v.operand, ast.Constant))
+    for c in repo.subclasses(base):
+        for fi in c.methods.values():
+            for st in A.walk_no_nested(fi.node):
+                if not isinstance(st, ast.Assign):
+                    continue
+                selfs = [t for t in st.targets if isinstance(t, ast.Attribute) and isinstance(t.value, ast.Name) and t.value.id == "self"]
+                if not selfs:
+                    continue
+                n += 1
+                v = st.value
+                bad = None
+                if len(selfs) >= 2 and not immut(v):
+                    bad = f"`{ast.unparse(st)[:80]}` stores one object under {[t.attr for t in selfs]}"
+                elif isinstance(v, ast.Attribute) and isinstance(v.value, ast.Name) and v.value.id == "self" and fi.name == "__init__":
+                    bad = f"`{ast.unparse(st)[:80]}` makes self.{selfs[0].attr} the same object as self.{v.attr}"
+                if bad or n % 5 == 0:
+                    rep.ob(rule, f"distinct-state-entries:{c.name}.{fi.name}:{selfs[0].attr}", bad is None, fi.loc(st), bad or f"`{ast.unparse(st)[:70]}` gives the attribute its own object", sample=bad is None)
+    rep.floor(rule, "attribute stores in OptimizerModule classes", n, 4)
+
+
 def run(ctx, rep) -> None:
     rep.rule("C16.1", "flat key = json.dumps(whole key path); unflatten = json.loads + walk of all parents + leaf store")
     rep.rule("C16.2", "writer and reader kind tables agree and no arm shadows a later one")
@@ -320,3 +348,5 @@ def run(ctx, rep) -> None:
     rep.attempt("emission", emission, ctx, rep, "C16.4")
     rep.attempt("leafless_not_required", leafless_not_required, ctx, rep, "C16.5")
     rep.assume("value equality after load and round-trip for all key values rely on JSON and torch copy_ semantics — NOT decided beyond the structural pairing")
+    rep.rule("C16.6", "distinct attributes of an optimizer module hold distinct tensor objects (each state-dict key is loaded into its own tensor)")
+    rep.attempt("state_entries_are_distinct", state_entries_are_distinct, ctx, rep, "C16.6")
